@@ -67,6 +67,15 @@ def err_returns(f, blocks):
     return out
 
 
+def _operands(rv):
+    out = []
+    for k in ("a", "b"):
+        if isinstance(rv.get(k), dict):
+            out.append(rv[k])
+    out += [o for o in rv.get("ops", []) if isinstance(o, dict)]
+    return out
+
+
 def status_rule(ctx, r):
     facts = ctx.facts
     run = facts.fn("rg::run")
@@ -78,23 +87,70 @@ def status_rule(ctx, r):
     if node is None:
         r.bad("run|shape", "anchor-missing: rg::run does not end in Ok(<status expression>)", fn=run)
         return
-    env = H.NoInline(H.LetEnv(run.hir), {"matched"})
-    at = H.decision_atoms(node, env)
-    want_atoms = {"matched", "args.quiet()", "rg::messages::errored()"}
-    if set(at) != want_atoms:
-        r.bad("run|atoms", "exit status depends on %s, expected exactly %s" % (sorted(at), sorted(want_atoms)), fn=run)
+    # decided on the MIR so that the form of the expression (if/else chain, match on a tuple, early returns) does not
+    # matter: the mode functions answer Ok(matched), HiArgs::quiet() and messages::errored() answer the row's bits, every
+    # other call is unknown; the ExitCode constructed on the way out must be the specified one and the only one
+    QUIET, ERRORED = "rg::flags::hiargs::HiArgs::quiet", "rg::messages::errored"
+    if not run.calls_to(ERRORED):
+        r.bad("run|atoms", "exit status does not consult messages::errored()", fn=run)
         return
-    for bits in itertools.product([False, True], repeat=3):
-        val = dict(zip(at, bits))
-        leaf = H.decide(node, val, env)
-        m, q, e = val["matched"], val["args.quiet()"], val["rg::messages::errored()"]
+    # `matched`: the bool local that receives the answers of the mode functions (and `false` where no match is possible);
+    # the table starts where it is first read
+    eb0 = ExprBuilder(run)
+    ml = None
+    for l_ in range(len(run.locals)):
+        if run.local_ty(l_) == "bool" and len(run.defs().get(l_, [])) >= 2:
+            e0 = eb0.local(l_)
+            if any(is_call(x, "rg::search", "rg::files", "rg::search_parallel", "rg::files_parallel") for x in walk(e0)):
+                ml = l_
+                break
+    readers = sorted({bb for bb, j, st in run.stmts() if st["k"] == "assign" and any(
+        (op_place(o) or {}).get("l") == ml and not (op_place(o) or {}).get("p") for o in _operands(st["rv"]))} |
+        {bb for bb, b in enumerate(run.blocks) if b["term"]["k"] == "switch" and (op_place(b["term"].get("op", {})) or {}).get("l") == ml}) \
+        if ml is not None else []
+    joins = [b for b in readers if not any(o != b and C.dominates(run, o, b) for o in readers)]
+    if ml is None or not joins:
+        r.bad("run|atoms", "anchor-missing: no bool local of rg::run collects the answers of search / files / *_parallel", fn=run)
+        return
+    for m, q, e in itertools.product([0, 1], repeat=3):
+        built = {}
+
+        def model(call, argv, m=m, q=q, e=e, built=built):
+            if call.path == QUIET:
+                return I(q)
+            if call.path == ERRORED:
+                return I(e)
+            dty = run.local_ty(call.dest["l"]) if call.dest is not None and not call.dest["p"] else ""
+            if dty.startswith("std::result::Result<bool,"):
+                return V("Ok", I(m))
+            if call.is_("core::convert::From::from") and dty.endswith("ExitCode"):
+                a = argv[0] if argv else None
+                if a is not None and a[0] == "s" and all(x[0] == "i" for x in a[1]):
+                    built[call.bb] = tuple(sorted(x[1] for x in a[1]))
+                else:
+                    built[call.bb] = (a[1],) if (a is not None and a[0] == "i") else None
+            return None
+        s0 = Sccp(run, call_model=model).run([(0, {})])
+        built.clear()
+        starts = []
+        for jb in joins:
+            env = dict(s0.env_in.get(jb, {}))
+            Sccp._write(env, (ml, ()), I(m))
+            starts.append((jb, env))
+        sx = Sccp(run, call_model=model).run(starts)
+        # the ExitCode values constructed on executable paths (the single return block merges them with the early returns
+        # of the other modes, so they are read where they are built)
+        codes = {x for bb_, v_ in built.items() if bb_ in sx.exec_blocks and v_ is not None for x in v_}
+        unknown = [bb_ for bb_, v_ in built.items() if bb_ in sx.exec_blocks and v_ is None]
         want = 0 if (m and (q or not e)) else (2 if e else 1)
         key = "run|matched=%d,quiet=%d,errored=%d" % (m, q, e)
-        if leaf == "core::convert::From::from(%d)" % want:
+        if codes == {want} and not unknown:
             r.ok(key, "-> ExitCode::from(%d)" % want, fn=run)
         else:
-            r.bad(key, "exit status for matched=%s quiet=%s errored=%s is `%s`, specified ExitCode::from(%d)"
-                  % (m, q, e, leaf, want), fn=run, construct="status")
+            r.bad(key, "exit status for matched=%s quiet=%s errored=%s is %s%s, specified ExitCode::from(%d): it may depend only on "
+                  "matched, args.quiet() and messages::errored()" % (bool(m), bool(q), bool(e), sorted(codes) or "undetermined",
+                                                                      " (or something not determined by them)" if unknown else "", want),
+                  fn=run, construct="status")
     # rg::main
     main = facts.fn("rg::main")
     eb = ExprBuilder(main)
